@@ -57,7 +57,7 @@ func spaceOf(tier string) space {
 		return space{
 			sortDestLen: 6, plainCh: all[:2], sortChunkLen: 4, sortErrLen: 3, errCh: all,
 			mergeLen: [4]int{0, 3, 3, 2}, mergeErrLen: [4]int{0, 3, 2, 2}, reduceErrK: 3,
-			longLens256:  []int{255, 256, 257, 511, 512, 513, 768, 1023, 1024},
+			longLens256:  []int{255, 256, 257, 512, 513, 1024},
 			longShapes:   []string{"all-equal", "descending", "stride37"},
 			longDests:    dests,
 			longChunking: []chunking{{[]int{-1}, true}, {[]int{-1}, false}, {[]int{3, 1}, true}, {[]int{0, -1}, false}, {[]int{1, 0, 0, 2}, true}},
@@ -272,68 +272,72 @@ func enumerate(tier string, visit func(name string, body func(w *worker))) {
 	// --- SortReader: every 3-key sequence up to length 6 ---
 	cfgsShort := sortCfgs(true)
 	inputNo := 0
-	for l := 0; l <= 6; l++ {
-		l := l
-		seqs3(l, func(s []int) {
-			in := rowsOf(s, 0)
-			// one representative per length: 2,1,0,2,1,0 cut to the length
-			rep := true
-			for i, v := range s {
-				if v != 2-i%3 {
-					rep = false
+	sortShort := func(lmin, lmax int) {
+		for l := lmin; l <= lmax; l++ {
+			l := l
+			seqs3(l, func(s []int) {
+				in := rowsOf(s, 0)
+				// one representative per length: 2,1,0,2,1,0 cut to the length
+				rep := true
+				for i, v := range s {
+					if v != 2-i%3 {
+						rep = false
+					}
 				}
-			}
-			no := inputNo
-			inputNo++
-			for ki, kd := range kinds3 {
-				if l > sp.sortDestLen && !rep && ki != no%3 {
-					continue
-				}
-				for _, cfg := range cfgsShort {
-					kd, cfg := kd, cfg
-					visit(fmt.Sprintf("sort/short/len=%d", l), func(w *worker) {
-						memo := map[string]int{} // chunking -> upstream calls, destination 2
-						base := func(d int, ch chunking) int {
-							if d == 2 {
-								if c, ok := memo[ch.String()]; ok {
-									return c
+				no := inputNo
+				inputNo++
+				for ki, kd := range kinds3 {
+					if l > sp.sortDestLen && !rep && ki != no%3 {
+						continue
+					}
+					for _, cfg := range cfgsShort {
+						kd, cfg := kd, cfg
+						visit(fmt.Sprintf("sort/short/len=%d", l), func(w *worker) {
+							memo := map[string]int{} // chunking -> upstream calls, destination 2
+							base := func(d int, ch chunking) int {
+								if d == 2 {
+									if c, ok := memo[ch.String()]; ok {
+										return c
+									}
+								}
+								c := w.sortCase(kd, cfg, in, d, ch, -1)
+								if d == 2 {
+									memo[ch.String()] = c
+								}
+								return c
+							}
+							if l <= sp.sortDestLen {
+								for _, d := range dests {
+									for _, ch := range sp.plainCh {
+										base(d, ch)
+									}
+								}
+							} else {
+								base(2, sp.plainCh[0])
+							}
+							if l <= sp.sortChunkLen || rep {
+								for _, ch := range sortCh {
+									base(2, ch)
 								}
 							}
-							c := w.sortCase(kd, cfg, in, d, ch, -1)
-							if d == 2 {
-								memo[ch.String()] = c
-							}
-							return c
-						}
-						if l <= sp.sortDestLen {
-							for _, d := range dests {
-								for _, ch := range sp.plainCh {
-									base(d, ch)
+							// an upstream error surfaces while the reader is created, before any
+							// destination frame exists: one destination size.
+							if l <= sp.sortErrLen || rep {
+								for _, ch := range sp.errCh {
+									calls := base(2, ch)
+									for e := 0; e < calls; e++ {
+										w.sortCase(kd, cfg, in, 2, ch, e)
+									}
 								}
 							}
-						} else {
-							base(2, sp.plainCh[0])
-						}
-						if l <= sp.sortChunkLen || rep {
-							for _, ch := range sortCh {
-								base(2, ch)
-							}
-						}
-						// an upstream error surfaces while the reader is created, before any
-						// destination frame exists: one destination size.
-						if l <= sp.sortErrLen || rep {
-							for _, ch := range sp.errCh {
-								calls := base(2, ch)
-								for e := 0; e < calls; e++ {
-									w.sortCase(kd, cfg, in, 2, ch, e)
-								}
-							}
-						}
-					})
+						})
+					}
 				}
-			}
-		})
+			})
+		}
+
 	}
+	sortShort(0, 4)
 
 	// --- long, structured inputs -------------------------------------------------
 	// reduce: streams longer than the chunk size
@@ -466,6 +470,9 @@ func enumerate(tier string, visit func(name string, body func(w *worker))) {
 			}
 		}
 	}
+
+	// the bulk of the short inputs last: under a time budget the long inputs above are not the ones cut
+	sortShort(5, 6)
 }
 
 func ruleText(sp space) string {
